@@ -12,6 +12,7 @@ from .rules import misc as MI
 from .rules import mt as MT
 from .rules import scan as SC
 from .rules import ok as OK
+from .rules import struct as ST
 
 TRUST = ('trusted: the CPython parser (ast), the callee resolver of sa/model.py (receiver roles, '
          'unique method names), Python list/str/re semantics as encoded in the rules; ')
@@ -58,7 +59,7 @@ prop('C02',
      'DESIGN.md 3.1, 4 C02')
 
 prop('C03',
-     [MI.dt1, MI.ex2, MI.df1, PD.pd5],
+     [MI.dt1, MI.ex2, MI.df1, PD.pd5, ST.ls2p, ST.at1, ST.ex1],
      'no markup class reaches the default emit and comments are dropped (DT1); an argument '
      'handed back for expansion is not expanded a second time by its handler (EX2: no '
      'duplicated footnotes); text of definition files never reaches the output, including '
@@ -72,7 +73,7 @@ prop('C03',
      'DESIGN.md 3.8 (DT1, EX1), 3.4 (DF1), 4 C03')
 
 prop('C04',
-     [PD.pd1, PD.pd2, PD.pd5, MI.pd0],
+     [PD.pd1, PD.pd2, PD.pd5, MI.pd0, ST.pd7],
      'every generated token is pinned (PD1), re-stamped tokens are pinned (PD2), and bodies, '
      'defaults, glossary and cleveref replacements are copied before they are stamped (PD5)',
      'decides that generated text cannot spread or be re-mapped by a later use; not decided: '
@@ -98,7 +99,7 @@ prop('C06',
      'DESIGN.md 3.8 (SP1-SP3), 3.6 (IX4), 4 C06')
 
 prop('C07',
-     [SC.pd6, T.ix4],
+     [SC.pd6, T.ix4, ST.at1],
      'progress of the scanner on every path (PD6: the scan position strictly increases, with '
      'bounds of next()/find() results), well-formed tables (IX4)',
      'decides termination of the scanner and table well-formedness; further index-safety rules '
@@ -217,6 +218,21 @@ prop('C16',
      'static analysis: interprocedural string-taint analysis with sanitiser + path-sensitive '
      'symbolic evaluation of cursor and accumulators',
      'DESIGN.md 3.4 (TH1, TH2), 3.2 (LS2), 4 C16')
+
+prop('C18',
+     [ST.ex1, ST.wl1, ST.ls2p, MI.dt1],
+     'init_extractions rewrites every macro and extracts the first mandatory argument, the main '
+     'text is dropped, flows are appended once in order (EX1); the work list takes one name per '
+     'iteration, records it exactly as tested after the done / skip test, and adds only names '
+     'that are neither done nor pending nor skipped (WL1); skipped regions and comments do not '
+     'reach the expander (LS2p, DT1)',
+     'decides the extraction bookkeeping and the work-list discipline (each file once, '
+     'terminates on cycles); not decided: occurrences in verbatim material, file-name '
+     'normalisation',
+     '',
+     'static analysis: loop-structure and guard-dominance checks on init_extractions / parse / '
+     'the module-level work list; symbolic partition check of the skip loop',
+     'DESIGN.md 3.8 (EX1, WL1), 4 C18')
 
 prop('C19',
      [MI.uk, PS.ps1],
